@@ -88,7 +88,10 @@ static void term_case(std::string det, std::vector<int> topo, unsigned T,
             "loop ended with %d units outstanding", pending());
   if (T2) { // re-arm with a different thread count
     galois::setActiveThreads(T2);
-    term->init(T2);
+    // same thread count = re-arm IN PLACE, as the executors do between
+    // rounds: initializeThread() again on the detector already held, no init()
+    if (T2 != T)
+      term->init(T2);
     created();
     box[T2 - 1][0] = 1;
     vf_window_begin();
@@ -136,6 +139,8 @@ int main(int argc, char** argv) {
     add(det, {3}, 3, {1}, 2, 1, 1);       // re-arm 3 -> 2
     add(det, {3}, 2, {1}, 3, 1, 1);       // re-arm 2 -> 3
     add(det, {4}, 4, {1}, 0, -1, 1);
+    add(det, {2}, 2, {1}, 2, 1, 2);       // re-arm in place
+    add(det, {3}, 3, {-1}, 3, 1, 1);      // re-arm in place
   }
   add("system", {2, 1}, 3, {1, -1}, 2, 1, 1);
   return vf_main(argc, argv, "C04", cases);
